@@ -582,6 +582,10 @@ func (env *ExprEnv) deref(ref Term, elem types.Type) TV {
 	if env.heapNow() == nil {
 		fail("heap access in a pure context")
 	}
+	if l, ok := v.ptrLocs[ref]; ok {
+		// a pointer into a slice / array element (or a field of such a value)
+		return env.typed(v.load(&State{snap: env.heapNow()}, l), elem)
+	}
 	if _, ok := elem.Underlying().(*types.Struct); ok {
 		return env.typed(v.loadStruct(env.heapNow(), elem, ref), elem)
 	}
